@@ -109,7 +109,9 @@ def snapshot(x):
         return (type(x).__name__, [snapshot(v) for v in x])
     import quantities as pq
     if isinstance(x, pq.Quantity):
-        return ('quantity', repr(np.array(x.magnitude, dtype=float).tolist()), x.dimensionality.string)
+        unc = getattr(x, 'uncertainty', None)
+        return ('quantity', repr(np.array(x.magnitude, dtype=float).tolist()), x.dimensionality.string,
+                None if unc is None else repr(np.array(unc.magnitude, dtype=float).tolist()))
     if isinstance(x, np.ndarray):
         return ('ndarray', repr(x.tolist()))
     if isinstance(x, SimpleNamespace):
@@ -221,7 +223,8 @@ class C18(Property):
     # ================================================================================================ generation
     def generate(self, rng, n, tier):
         cases = [{'kind': 'constants'}]
-        gens = [(0.40, self._gen_is), (0.22, self._gen_ab), (0.20, self._gen_lg), (0.18, self._gen_ap)]
+        gens = [(0.36, self._gen_is), (0.20, self._gen_ab), (0.17, self._gen_lg), (0.15, self._gen_ap), (0.07, self._gen_vec),
+                (0.05, self._gen_ac)]
         while len(cases) < n:
             r = rng.random()
             acc = 0.0
@@ -240,8 +243,8 @@ class C18(Property):
 
     def _gen_is(self, rng):
         r = rng.random()
-        form = ('list' if r < 0.35 else 'dict' if r < 0.60 else 'units-list' if r < 0.72 else 'units-qlist' if r < 0.86
-                else 'units-dict')
+        form = ('list' if r < 0.33 else 'dict' if r < 0.56 else 'units-list' if r < 0.66 else 'units-qlist' if r < 0.78
+                else 'units-dict' if r < 0.90 else 'units-uq' if r < 0.95 else 'units-uqlist')
         num = 'float' if form.startswith('units') else ('rat' if rng.random() < 0.6 else 'float')
         warn = rng.random() < 0.85
         c = {'kind': 'is', 'form': form, 'num': num, 'warn': warn}
@@ -425,7 +428,7 @@ class C18(Property):
 
     def _gen_ap(self, rng):
         lu = lambda lo, hi: float(self._dec(rng, lo, hi, 6))
-        f = rng.choice(['lim', 'ext', 'dav', 'cls_lim', 'cls_ext'])
+        f = rng.choice(['lim', 'ext', 'dav', 'cls_lim', 'cls_ext'] * 4 + ['cls_base'])
         k = rng.randint(1, 5)
         # stoichiometries include uncharged species (z = 0, any coefficient) and spectators (coefficient 0, any charge)
         stoich = [float(rng.choice([-3, -2, -1, 0, 1, 1, 2, 3])) for _ in range(k)]
@@ -436,7 +439,10 @@ class C18(Property):
              'T': float('%.6g' % rng.uniform(250, 650)), 'eps': float('%.6g' % rng.uniform(5, 100)),
              'rho': float('%.6g' % rng.uniform(500, 1500)),
              'C': rng.choice([0.0, -0.3, 0.1, -0.1, 0.3, float('%.4g' % rng.uniform(-0.5, 0.5))]), 'short': short}
-        if f.startswith('cls'):
+        if f == 'cls_base':
+            c['c'] = [lu(1e-6, 1.0) for _ in range(k)]
+            c['short'] = False
+        elif f.startswith('cls'):
             cc = [lu(1e-6, 1.0) for _ in range(k)]
             if rng.random() < 0.5 and k >= 2 and z[-1] != 0:      # make the molalities neutral (exactly, when representable)
                 net = sum(x * y for x, y in zip(cc[:-1], z[:-1]))
@@ -453,6 +459,208 @@ class C18(Property):
             else:
                 c['z'] = z[:-1]
         return c
+
+    def _gen_vec(self, rng):
+        """vectorised molalities: one numpy array (m samples) per ion; list of rows, k x m array, Quantity array or dict of rows"""
+        k, m = rng.randint(1, 5), rng.randint(1, 4)
+        zs = [rng.choice([-4, -3, -2, -1, -1, 1, 1, 2, 3, 4]) for _ in range(k)]
+        if k >= 2 and rng.random() < 0.6:       # one counter-ion of the opposite sign: every sample can be made neutral
+            sgn = rng.choice([1, -1])
+            zs = [sgn * abs(z) for z in zs[:-1]] + [-sgn * rng.choice([1, 2, 4])]
+        if abs(zs[-1]) == 3:
+            zs[-1] = 2 if zs[-1] > 0 else -2
+        j = rng.randint(10, 30)
+        cols, neutral = [], []
+        for _ in range(m):
+            bs = [Fraction(rng.randint(1, 10 ** rng.randint(1, 6)), 2 ** j) for _ in range(k)]
+            want_neutral = rng.random() < 0.6 and k >= 2
+            if want_neutral:
+                net = sum(b * z for b, z in zip(bs[:-1], zs[:-1]))
+                if net != 0 and (net > 0) != (zs[-1] > 0):
+                    bs[-1] = -net / zs[-1]
+                else:
+                    want_neutral = False
+            cols.append(bs)
+            neutral.append(sum(b * z for b, z in zip(bs, zs)) == 0)
+        rows = [[float(cols[jj][i]) for jj in range(m)] for i in range(k)]
+        c = {'kind': 'vec', 'container': rng.choice(['rows', 'array2d', 'quantity2d', 'dict', 'qrows']), 'rows': rows, 'z': zs,
+             'warn': rng.random() < 0.9, 'unit': rng.choice(sorted(MOLAL_UNITS)), 'mal': None}
+        r = rng.random()
+        if r < 0.06:
+            c.update({'z': zs[:-1], 'mal': 'short-z', 'container': 'rows'})
+        elif r < 0.10:
+            c.update({'rows': [], 'z': [], 'mal': 'empty', 'container': 'rows'})
+        if c['container'] == 'dict':
+            keys = []
+            for z in c['z']:
+                pool = [f for f in BY_CHARGE[z] if f not in keys]
+                if not pool:
+                    c['container'] = 'rows'
+                    break
+                keys.append(rng.choice(pool))
+            else:
+                c['keys'] = keys
+        return c
+
+    def _gen_ac(self, rng):
+        """direct calls of chempy.units.allclose on the argument shapes its branches distinguish"""
+        lu = lambda lo, hi: float(self._dec(rng, lo, hi, 6))
+        shape = rng.choice(['arr', 'arr', 'scalar_arr', 'list', 'list', 'list_scalar', 'scalar'])
+        rtol = rng.choice([1e-8, 1e-8, 1e-3, 0.0])
+        n = rng.randint(1, 5)
+
+        def pairs(n, atols):
+            a, b = [], []
+            for i in range(n):
+                x = lu(1e-6, 1e3) * rng.choice([1, -1])
+                thr = abs(x) * rtol + atols[i]
+                dev = thr * rng.choice([0.0, 0.3, 0.3, 3.0]) if rng.random() < 0.8 else abs(x) * rng.choice([0.5, 2.0])
+                a.append(x)
+                b.append(x + dev * rng.choice([1, -1]))
+            return a, b
+        if shape == 'arr':
+            atol = [rng.choice([0.0, lu(1e-12, 1e-2)]) for _ in range(n)]
+            a, b = pairs(n, atol)
+        elif shape == 'scalar_arr':
+            at = rng.choice([0.0, lu(1e-12, 1e-2)])
+            a1, b = pairs(n, [at] * n)
+            a = a1[0]
+            thr = abs(a) * rtol + at
+            b = [a + thr * rng.choice([0.0, 0.3, 0.3, 0.3, 3.0]) * rng.choice([1, -1]) for _ in range(n)]
+            atol = at
+        elif shape == 'list':
+            atol = rng.choice([0.0, lu(1e-12, 1e-2)])
+            a, b = pairs(n, [atol] * n)
+            if rng.random() < 0.25:
+                b = b + [b[-1]] if rng.random() < 0.5 else b[:-1]
+        elif shape == 'list_scalar':
+            atol = 0.0
+            a, b = pairs(n, [0.0] * n)
+            if rng.random() < 0.5:
+                a, b = a, b[0]
+            else:
+                a, b = a[0], b
+        else:
+            atol = rng.choice([0.0, lu(1e-12, 1e-2)])
+            a, b = pairs(1, [atol])
+            a, b = a[0], b[0]
+        return {'kind': 'ac', 'shape': shape, 'a': a, 'b': b, 'rtol': rtol, 'atol': atol}
+
+    # ---- real calls of the new kinds
+    def _build_vec(self, c):
+        import numpy as np
+        from chempy.units import default_units as u
+        rows = [np.array(r, dtype=float) for r in c['rows']]
+        ct = c['container']
+        if ct == 'array2d' and rows:
+            arg = np.array(rows)
+        elif ct == 'quantity2d' and rows:
+            arg = np.array(rows) * _unit(u, c['unit'])
+        elif ct == 'qrows':
+            arg = [r * _unit(u, c['unit']) for r in rows]
+        elif ct == 'dict':
+            arg = dict(zip(c['keys'], rows))
+        else:
+            arg = rows
+        return arg, (None if ct == 'dict' else [int(z) for z in c['z']])
+
+    def _call_vec(self, c, run=None):
+        from chempy.electrolytes import ionic_strength
+        arg, ch = self._build_vec(c)
+        run = run or captured
+        if ch is None:
+            return run(ionic_strength, arg, warn=c['warn'])
+        return run(ionic_strength, arg, ch, warn=c['warn'])
+
+    def _vec_mags(self, c, r):
+        import numpy as np
+        if c['container'] in ('quantity2d', 'qrows'):
+            from chempy.units import default_units as u
+            q = (r / _unit(u, c['unit'])).simplified
+            if q.dimensionality.string != 'dimensionless':
+                raise TypeError('ionic strength has the wrong dimension: %s left' % q.dimensionality.string)
+            r = q.magnitude
+        return [float(x) for x in np.atleast_1d(np.asarray(r, dtype=float))]
+
+    def _call_ac(self, c, inv=_plain):
+        import numpy as np
+        from chempy.units import allclose
+        sh = c['shape']
+        a, b, atol = c['a'], c['b'], c['atol']
+        if sh == 'arr':
+            a, b, atol = np.array(a), np.array(b), np.array(atol)
+        elif sh == 'scalar_arr':
+            b = np.array(b)
+        return inv(allclose, a, b, c['rtol'], atol) if c['rtol'] != 1e-8 else inv(allclose, a, b, atol=atol)
+
+    def _oracle_vec(self, c):
+        rec = Recorder()
+        r, w = self._call_vec(c, rec.cap)
+        if rec.problem:
+            return rec.problem
+        if c['mal']:
+            return None if isinstance(r, Exception) else 'ionic_strength accepted malformed vectorised input (%s)' % c['mal']
+        if isinstance(r, Exception):
+            return 'ionic_strength on vectorised molalities raised %s: %s' % (exc_name(r), str(r)[:80])
+        try:
+            got = self._vec_mags(c, r)
+        except TypeError as e:
+            return str(e)
+        zs = c['z']
+        m = len(c['rows'][0])
+        if len(got) != m:
+            return 'vectorised ionic strength has %d entries for %d samples' % (len(got), m)
+        from chempy.electrolytes import ionic_strength
+        any_warn, any_off, all_neutral = False, False, True
+        for jj in range(m):
+            bs = [Fraction(row[jj]) for row in c['rows']]
+            want = sum(b * z * z for b, z in zip(bs, zs)) / 2
+            if not close(got[jj], want, 1e-12, 0.0):
+                return 'sample %d: ionic strength %r, 1/2 sum b z^2 = %r' % (jj, got[jj], float(want))
+            net = sum(b * z for b, z in zip(bs, zs))
+            all_neutral = all_neutral and net == 0
+            any_off = any_off or abs(net) >= Fraction(1, 10 ** 12) * 2 * want and net != 0
+            rj, wj = captured(ionic_strength, [float(b) for b in bs], [int(z) for z in zs], warn=c['warn'])
+            if isinstance(rj, Exception) or not close(rj, got[jj], 1e-13, 0.0):
+                return 'sample %d: the vectorised call gives %r, the call on that sample alone %r' % (jj, got[jj], rj)
+            any_warn = any_warn or wj
+        if w != any_warn:
+            return 'vectorised call %s, but the samples one by one %s' % ('warned' if w else 'did not warn',
+                                                                        'warn' if any_warn else 'do not warn')
+        if c['warn']:
+            if all_neutral and w:
+                return 'every sample is exactly neutral, yet the warning was issued'
+            if any_off and not w:
+                return 'a sample is not neutral, yet no warning was issued'
+        elif w:
+            return 'warning issued although warn=False'
+        return None
+
+    def _oracle_ac(self, c):
+        rec = Recorder()
+        try:
+            r = self._call_ac(c, rec)
+        except Exception as e:
+            return 'allclose raised %s: %s' % (exc_name(e), str(e)[:80])
+        if rec.problem:
+            return rec.problem
+        sh, rtol = c['shape'], c['rtol']
+        ok = lambda x, y, t: abs(Fraction(x) - Fraction(y)) <= abs(Fraction(x)) * Fraction(rtol) + Fraction(t)
+        a, b, atol = c['a'], c['b'], c['atol']
+        if sh == 'scalar':
+            want = ok(a, b, atol)
+        elif sh == 'arr':
+            want = all(ok(x, y, t) for x, y, t in zip(a, b, atol))
+        elif sh == 'scalar_arr':
+            want = all(ok(a, y, atol) for y in b)
+        elif sh == 'list':
+            want = len(a) == len(b) and all(ok(x, y, atol) for x, y in zip(a, b))
+        else:
+            want = False
+        if bool(r) != want:
+            return 'allclose(%r, %r, rtol=%r, atol=%r) = %r, definition |a-b| <= rtol|a| + atol (element-wise, equal lengths) gives %r' % (
+                a, b, rtol, atol, bool(r), want)
+        return None
 
     # ================================================================================================ model side
     def model_case(self, c):
@@ -503,6 +711,17 @@ class C18(Property):
                   'a': [f2b(x) for x in c['a']], 'T': f2b(c['T']), 'eps': f2b(c['eps']), 'rho': f2b(c['rho']), 'C': f2b(c['C'])}
             if 'c' in c:
                 mc['c'] = [f2b(x) for x in c['c']]
+            return mc
+        if kd == 'vec':
+            return {'op': 'is_vec', 'kind': kd, 'case': c, 'rows': [[f2b(x) for x in r] for r in c['rows']],
+                    'z': [f2b(z) for z in c['z']], 'warn': c['warn']}
+        if kd == 'ac':
+            mc = {'op': 'allclose', 'kind': kd, 'case': c, 'shape': c['shape'], 'rtol': f2b(c['rtol'])}
+            enc = lambda v: [f2b(x) for x in v] if isinstance(v, list) else f2b(v)
+            for k in ('a', 'b', 'atol'):
+                if c['shape'] == 'list_scalar' and isinstance(c[k], list):
+                    continue
+                mc[k] = enc(c[k])
             return mc
         raise ValueError('unknown kind %r' % kd)
 
@@ -559,6 +778,12 @@ class C18(Property):
                 arg = dict((k, v * un) for k, v in zip(keys, vals))        # one scalar Quantity per key
             elif c['form'] == 'units-qlist':
                 arg = [v * un for v in vals]                               # list of scalar Quantity objects
+            elif c['form'] == 'units-uq':                                  # one UncertainQuantity array (allclose unwraps it)
+                import quantities as pq
+                arg = pq.UncertainQuantity(vals, un, [abs(v) * 0.01 for v in vals])
+            elif c['form'] == 'units-uqlist':                              # list of scalar UncertainQuantity objects
+                import quantities as pq
+                arg = [pq.UncertainQuantity(v, un, abs(v) * 0.01) for v in vals]
             else:
                 arg = np.array(vals) * un                                  # one Quantity array
         elif 'dict' in c['form']:
@@ -604,7 +829,8 @@ class C18(Property):
         """magnitude of an ionic-strength result in the unit the molalities were given in"""
         if c['form'].startswith('units'):
             from chempy.units import default_units as u
-            return float((r / _unit(u, c['unit'])).simplified.magnitude)
+            import quantities as pq
+            return float((pq.Quantity(r) / _unit(u, c['unit'])).simplified.magnitude)
         return r
 
     def _real_ab(self, c, path=None, inv=_plain):
@@ -675,7 +901,11 @@ class C18(Property):
             return cap(E.extended_activity_product, c['IS'], ints(c['stoich']), ints(c['z']), c['a'], c['T'], c['eps'], c['rho'], c['C'])
         if f == 'dav':
             return cap(E.davies_activity_product, c['IS'], ints(c['stoich']), ints(c['z']), c['a'], c['T'], c['eps'], c['rho'], c['C'])
-        if f == 'cls_lim':
+        if f == 'cls_base':
+            obj = E._ActivityProductBase(ints(c['stoich']), ints(c['z']), c['T'], c['eps'], c['rho'])
+            if obj.stoich != ints(c['stoich']) or obj.args != (ints(c['z']), c['T'], c['eps'], c['rho']):
+                raise AssertionError('_ActivityProductBase does not store stoich / args')
+        elif f == 'cls_lim':
             obj = E.LimitingDebyeHuckelActivityProduct(ints(c['stoich']), ints(c['z']), c['T'], c['eps'], c['rho'])
         else:
             obj = E.ExtendedDebyeHuckelActivityProduct(ints(c['stoich']), ints(c['z']), c['a'], c['T'], c['eps'], c['rho'], c['C'])
@@ -708,9 +938,19 @@ class C18(Property):
                 r, w = self._real_ap(c)
                 if isinstance(r, Exception):
                     return exc_name(r)
+                if r is None:
+                    return 'None'
                 if isinstance(r, complex) or getattr(r, 'dtype', None) is not None and r.dtype.kind == 'c':
                     return 'raised:complex result'
                 return (float(r), 'W' if w else '-')
+            if kd == 'vec':
+                r, w = self._call_vec(c)
+                if isinstance(r, Exception):
+                    return exc_name(r)
+                return ([float(x) for x in self._vec_mags(c, r)], 'W' if w else '-')
+            if kd == 'ac':
+                r = self._call_ac(c)
+                return 'true' if bool(r) else 'false'
         except Exception as e:
             return 'raised:' + exc_name(e) + ':' + str(e)[:80]
 
@@ -766,7 +1006,17 @@ class C18(Property):
             parts = mo.split()
             if c['f'].startswith('cls'):
                 return len(parts) == 2 and close(io[0], b2f(parts[0]), self.float_tol) and io[1] == parts[1]
+            if c['f'] == 'cls_base':
+                return False
             return len(parts) == 1 and close(io[0], b2f(parts[0]), self.float_tol) and io[1] == '-'
+        if kd == 'vec':
+            if isinstance(io, str):
+                return io == mo
+            parts = mo.split()
+            return (len(parts) == len(io[0]) + 1 and parts[-1] == io[1]
+                    and all(close(x, b2f(y), self.float_tol) for x, y in zip(io[0], parts[:-1])))
+        if kd == 'ac':
+            return io == mo
         return False
 
     # ================================================================================================ oracle
@@ -795,7 +1045,8 @@ class C18(Property):
         got = self._mag(c, r)
         if c['form'].startswith('units'):
             from chempy.units import default_units as u
-            dim = (r / _unit(u, c['unit'])).simplified.dimensionality.string
+            import quantities as pq
+            dim = (pq.Quantity(r) / _unit(u, c['unit'])).simplified.dimensionality.string
             if dim != 'dimensionless':
                 return 'ionic strength of molalities in %s has the wrong dimension (%s left)' % (c['unit'], dim)
         if exact:
@@ -835,7 +1086,7 @@ class C18(Property):
             # the permuted call is built from the SAME molality objects as the first call
             if ch is None:
                 arg2, ch2 = dict((c['keys'][i], arg[c['keys'][i]]) for i in perm), None
-            elif c['form'] == 'units-list':
+            elif c['form'] in ('units-list', 'units-uq'):
                 arg2, ch2 = arg[perm], [ch[i] for i in perm]
             else:
                 arg2, ch2 = [arg[i] for i in perm], [ch[i] for i in perm]
@@ -919,6 +1170,10 @@ class C18(Property):
         r, w = self._real_ap(c, rec.cap)
         if rec.problem:
             return rec.problem
+        if c['f'] == 'cls_base':
+            if isinstance(r, Exception):
+                return '_ActivityProductBase call raised %s: %s' % (exc_name(r), str(r)[:80])
+            return None if r is None and not w else '_ActivityProductBase(...)(c) returned %r (documented: does nothing)' % (r,)
         k = len(c['stoich'])
         enough = len(c['z']) >= k and (c['f'] not in ('ext', 'cls_ext') or len(c['a']) >= k)
         if not enough:
@@ -973,6 +1228,10 @@ class C18(Property):
             spect = any(c['stoich'][i] == 0 for i in range(len(c['stoich'])))
             return 'ap:%s%s%s%s%s' % (c['f'], ':short' if c['short'] else '', ':neutral-species' if neutral else '',
                                       ':spectator' if spect else '', ':C=0' if c['C'] == 0 else '')
+        if kd == 'vec':
+            return 'vec:%s%s' % (c['container'], (':' + c['mal']) if c['mal'] else '')
+        if kd == 'ac':
+            return 'allclose:%s' % c['shape']
         return kd
 
 
